@@ -16,11 +16,11 @@ from lib.snapshot import snapshot
 
 CONFIG = {
     "shards": {"quick": 8, "thorough": 16},
-    "budget_s": {"quick": 120, "thorough": 1500},
+    "budget_s": {"quick": 120, "thorough": 2400},
     "rule": ("pdm: shape (2-12 leaves quick / <= 40 thorough; polytomies up to arity 5, unifurcations anywhere incl. "
              "chains and above leaves/root) x rooting flag {True,False,None} x length pattern (none, unit, small ints "
              "incl. 0, dyadic, general floats, partially missing = counted as zero) x namespace history (unused and "
-             "removed taxa) x is_store_path_edges; every ordered pair of leaf taxa and every pair of nodes is compared, "
+             "removed taxa) x is_store_path_edges; every ordered pair of leaf taxa and (trees with <= 60 nodes) every pair of nodes is compared, "
              "plus drawn filter subsets for MPD/MNTD.  mrca: same shapes x query form (taxa / taxon_labels / "
              "leafset_bitmask) x subsets (singletons, pairs, full set, random, with a namespace taxon that is not on "
              "the tree) x start_node, first with a current encoding, then after raw remove_child/add_child edits with "
@@ -153,7 +153,7 @@ def check_pdm(ctx, case):
         _check_pdm(ctx, case)
 
 
-def _check_pdm(ctx, case, ndm_node_limit=90):
+def _check_pdm(ctx, case, ndm_node_limit=60):
     import dendropy
     from dendropy.calculate import phylogeneticdistance, treemeasure
     from dendropy.utility.error import NullAssemblageException
@@ -901,10 +901,10 @@ SUBCHECKS = {"pdm": check_pdm, "mrca": check_mrca, "nj": check_nj, "upgma": chec
 def run(ctx):
     quick = ctx.tier == "quick"
     n = ctx.nshards
-    runner.run_given(ctx, "pdm", pdm_cases(12 if quick else 40), check_pdm, (1200 if quick else 24000) // n)
-    runner.run_given(ctx, "mrca", mrca_cases(12 if quick else 40), check_mrca, (1600 if quick else 48000) // n)
-    runner.run_given(ctx, "nj", nj_cases(12 if quick else 30), check_nj, (1200 if quick else 24000) // n)
-    runner.run_given(ctx, "upgma", upgma_cases(12 if quick else 30), check_upgma, (800 if quick else 16000) // n)
-    runner.run_given(ctx, "upgma_general", upgma_general_cases(9 if quick else 16), check_upgma_general,
-                     (800 if quick else 16000) // n)
     runner.run_items(ctx, "exhaustive", exhaustive_items(5 if quick else 6), check_exh)
+    runner.run_given(ctx, "pdm", pdm_cases(12 if quick else 40), check_pdm, (1200 if quick else 16000) // n)
+    runner.run_given(ctx, "mrca", mrca_cases(12 if quick else 40), check_mrca, (1600 if quick else 32000) // n)
+    runner.run_given(ctx, "nj", nj_cases(12 if quick else 30), check_nj, (1200 if quick else 16000) // n)
+    runner.run_given(ctx, "upgma", upgma_cases(12 if quick else 30), check_upgma, (800 if quick else 12000) // n)
+    runner.run_given(ctx, "upgma_general", upgma_general_cases(9 if quick else 16), check_upgma_general,
+                     (800 if quick else 12000) // n)
